@@ -250,6 +250,7 @@ func hC10Req() {
 		}
 	}
 	verifAssert(produced <= 2*c10L+1, "C10: decompression is bounded by a small multiple of the limit")
+	verifAssert(out.code != 0 || delivered, "C01: a request reported successful reached the backend intact (never cut at the limit)")
 	switch {
 	case biggest > 2*c10L && !mustBuffer:
 		verifReach("far-over-limit-streamed")
@@ -365,6 +366,7 @@ func hC10Resp() {
 			delivered = true
 		}
 	}
+	verifAssert(out.code != 0 || delivered, "C01: a response reported successful reached the client intact (never cut at the limit)")
 	switch {
 	case biggest > 2*c10L && mustBuffer:
 		verifReach("far-over-limit")
